@@ -109,6 +109,7 @@ type FuncContract struct {
 	Havoc      []string
 	NoOverflow string
 	NoContent  []string // element types whose slice contents are not tracked on append ("[]string")
+	Unescaped  []string // map types whose values never leave the function (exempt from the havoc of unknown callees)
 	Trusted    string
 	AllowPanic bool
 	TrackLocks bool
@@ -704,6 +705,16 @@ func parseContractFile(path string, pc *PkgContracts) error {
 					// (the contents become arbitrary), used where only the length of a slice matters
 					for _, m := range strings.Split(rest, ",") {
 						cur.NoContent = append(cur.NoContent, strings.TrimSpace(m))
+					}
+				case "unescaped":
+					// assume unescaped map[K]V : maps of this type are created and used only inside this function
+					// and never passed to a callee, so calls to code without contract do not change them (an
+					// ASSUMPTION, listed in the evidence; true when the type is used for one local variable only)
+					for _, m := range strings.Split(rest, ",") {
+						if i := strings.Index(m, ": "); i >= 0 {
+							m = m[:i]
+						}
+						cur.Unescaped = append(cur.Unescaped, strings.TrimSpace(m))
 					}
 				default:
 					return fail(c, "unknown assume %q", f[0])
